@@ -11,6 +11,10 @@ structure Entry where
   summary : List (List Char)
   deriving DecidableEq, Repr, Inhabited
 
+def isOpen : EntryVal → Bool
+  | .openRange _ _ _ => true
+  | _ => false
+
 structure Record where
   date : Date
   /-- should-total in minutes, if one was written -/
